@@ -132,6 +132,7 @@ func (c C20) Run(t *tape.Tape, opt core.RunOpt) (res core.Result) {
 	w.ResolverEvents = t.Bool(1, 2)
 	w.BadEvents = t.Bool(1, 3)
 	w.ListEvents = t.Bool(1, 5)
+	w.NilEvents = t.Bool(1, 3)
 	if t.Bool(1, 4) {
 		w.ResolverReenters = 1 + t.Draw(2)
 		res.Count("probe_subscription_resolver_calls_the_registry", 1)
